@@ -693,3 +693,28 @@ def sibling_maps_family(thin: int = 1) -> List[dict]:
                             steps.extend(copy.deepcopy(DRAIN))
                             cases.append({"pools": [{"cls": "TaskPool", "size": size}], "steps": steps})
     return cases[::thin] if thin > 1 else cases
+
+
+def failed_close_then_unlock_family(thin: int = 1) -> List[dict]:
+    """gather_and_close() locks the pool, then raises a task's exception (the pool stays open and locked); unlock() opens it again and
+    requests are accepted and run as before; a later gather_and_close(return_exceptions=True) closes it for good:
+
+        spawn (one worker fails) ; tick 3 ; gather_and_close ; gate k ... ; settle ; <request: refused, locked> ; unlock ; <request> ;
+        settle ; drain ; gather_and_close(return_exceptions=True) ; settle ; <request: refused, closed>"""
+    cases: List[dict] = []
+    for size in (2, None):
+        for kind, extra in (("apply", {"num": 3}), ("map", {"n": 3, "nc": 2})):
+            for ends in ([["raise"], ["ret"]], [["ret"], ["raise"], ["ret"]]):
+                for place in ("eager", "task"):
+                    for t in range(3):
+                        for k2, extra2 in (("apply", {"num": 2}), ("map", {"n": 2, "nc": 1}), ("starmap", {"n": 2, "nc": 2})):
+                            sp = {"op": "spawn", "pool": 0, "kind": kind, "place": "inline", "worker": {"script": [["wait"]], "fname": "w", "ends": ends}, **extra}
+                            nxt = {"op": "spawn", "pool": 0, "kind": k2, "place": "inline", "worker": {"script": [["yield", 1]], "fname": "x"}, **extra2}
+                            steps = [sp, {"op": "tick", "k": 3}, {"op": "close", "pool": 0, "place": place}]
+                            _ticks(steps, t)
+                            steps += [{"op": "gate_all", "place": "inline"}, {"op": "settle"}, {"op": "gate_all", "place": "inline"}, {"op": "settle"},
+                                      copy.deepcopy(nxt), {"op": "unlock", "pool": 0, "place": "inline"}, copy.deepcopy(nxt), {"op": "settle"}]
+                            steps.extend(copy.deepcopy(DRAIN))
+                            steps += [{"op": "close", "pool": 0, "place": "eager", "re": True}, {"op": "settle"}, copy.deepcopy(nxt), {"op": "settle"}]
+                            cases.append({"pools": [{"cls": "TaskPool", "size": size}], "steps": steps})
+    return cases[::thin] if thin > 1 else cases
